@@ -408,6 +408,31 @@ def _run_plain(case, cfg, out, ro, IROE):
         if _diamond(bases, i) or not cons:
             out.nontrivial = True
         out.tag('plain_consistent' if cons else 'plain_inconsistent')
+        # questions that carry their own strictness must not depend on the
+        # process-wide setting (seed C03f): is_consistent() answers, it
+        # never raises; ro(strict=False) always yields a linearization
+        try:
+            ic = ro.is_consistent(objs[i])
+            if bool(ic) != cons:
+                out.fail('is-consistent', 'plain: is_consistent(node %d) = '
+                         '%r, C3 exists: %r (bases %r)' % (i, ic, cons,
+                                                           bases))
+        except IROE:
+            out.fail('is-consistent-raised', 'plain: is_consistent(node %d) '
+                     'raised; C3 exists: %r (bases %r)' % (i, cons, bases))
+        try:
+            r0 = [index[id(x)] for x in ro.ro(objs[i], strict=False)]
+            probs = models.valid_linearization(bases, i, r0)
+            if probs:
+                out.fail('plain-invalid', 'ro.ro(node %d, strict=False) = '
+                         '%r: %s (bases %r)' % (i, r0, probs, bases))
+            elif cons and not legacy_env and r0 != exp:
+                out.fail('plain-not-c3', 'ro.ro(node %d, strict=False) = %r, '
+                         'C3 is %r (bases %r)' % (i, r0, exp, bases))
+        except IROE:
+            out.fail('plain-nonstrict-call-raised', 'ro.ro(node %d, '
+                     'strict=False) raised; C3 exists: %r (bases %r)' % (
+                         i, cons, bases))
         try:
             r = [index[id(x)] for x in ro.ro(objs[i])]
         except IROE:
@@ -438,10 +463,6 @@ def _run_plain(case, cfg, out, ro, IROE):
             if cons:
                 out.fail('plain-strict-call-raised', 'node %d (bases %r)' % (
                     i, bases))
-        ic = ro.is_consistent(objs[i])
-        if bool(ic) != cons:
-            out.fail('is-consistent', 'plain: is_consistent(node %d) = %r, C3 '
-                     'exists: %r (bases %r)' % (i, ic, cons, bases))
 
 
 def accepts(rec, cfg):
